@@ -21,8 +21,9 @@ FORMATS = ["json", "yaml", "orjson", "msgpack", "toml"]
 def harnesses(tier, seed):
     hs = []
     k = 1 if tier == "quick" else 2
-    for v in ("iso_to", "iso_from"):
-        hs.append(gen.custom_harness("C13", "c13", Schema(v, "int", ""), v, "k=%d" % k, "k=%d" % k))
+    for v in ("iso_to", "iso_from", "iso_tofmt", "iso_fromfmt"):
+        kw = "k=%d, small=%r" % (k, tier == "quick")
+        hs.append(gen.custom_harness("C13", "c13", Schema(v, "int", ""), v, kw, kw))
     hs.append(gen.custom_harness("C13", "c13", Schema("merge", "int", ""), "merge"))
     hs.append(gen.custom_harness("C13", "c13", Schema("merge_s", "int", ""), "merge_s"))
     for fmt in FORMATS:
